@@ -110,6 +110,9 @@ clone (actor n+1); `fin`/`cancel` release both. -/
 structure RtSt where
   s : St
   helpers : List Nat
+  /-- kind `afd` (`AsyncFd`): "close" is `into_inner().take()` — model event `take` (future owns the raw `Shared`),
+  not `File::close`'s ManuallyDrop wrapper -/
+  bareTake : Bool := false
 
 def showRt (s : St) (r : String) : String :=
   let pw := (List.range s.actors.length).filter fun i =>
@@ -140,7 +143,7 @@ def rtEvent (t : RtSt) (w : List String) : Option (RtSt × String) :=
       else if k = "op" then
         if isHandle t i then
           (run t.s [.clone i, .opStart i]).map fun s' =>
-            ({ s := s', helpers := t.s.actors.length :: t.helpers }, showRt s' "-")
+            ({ t with s := s', helpers := t.s.actors.length :: t.helpers }, showRt s' "-")
         else none
       else if k = "fin" || k = "cancel" then
         if t.s.role i == some (Role.op .live) then
@@ -148,7 +151,9 @@ def rtEvent (t : RtSt) (w : List String) : Option (RtSt × String) :=
             ({ t with s := s' }, showRt s' (if k = "fin" then "ok" else "-"))
         else none
       else if k = "close" then
-        if isHandle t i then (step t.s (.close i)).map fun s' => ({ t with s := s' }, showRt s' "-") else none
+        if isHandle t i then
+          (step t.s (if t.bareTake then .take i else .close i)).map fun s' => ({ t with s := s' }, showRt s' "-")
+        else none
       else if k = "poll" then
         (run t.s [.setWaker i 0, .poll i]).map fun s' =>
           let r := match s'.role i with
@@ -346,9 +351,9 @@ def stepLine (m : Mode) (line : String) : Mode × String :=
       | none => (.none, "bad-op")
     else (.none, "bad-op")
   | .none, ["rt", d, kind] =>
-    if (d = "iour" || d = "poll") && (kind = "file" || kind = "unix" || kind = "tcp") then
+    if (d = "iour" || d = "poll") && (kind = "file" || kind = "unix" || kind = "tcp" || kind = "afd") then
       let s := init false
-      (.rt { s := s, helpers := [] }, showRt s "-")
+      (.rt { s := s, helpers := [], bareTake := kind = "afd" }, showRt s "-")
     else (.none, "bad-op")
   | .none, "splice" :: d :: rest =>
     if (d = "iour" || d = "poll") && (rest = [] || rest = ["fed"]) then
